@@ -84,7 +84,7 @@ impl<T> VxAsDeref<T> for Option<Vec<T>> {
 pub mod coset { use vstd::prelude::*;
     #[verifier::external_body] pub struct CoseKey { _p: u8 }
     impl Clone for CoseKey { #[verifier::external_body] fn clone(&self) -> (r: Self) ensures r == *self { unimplemented!() } }
-    pub mod iana { #[derive(Clone, Copy, PartialEq, Eq)] pub enum Algorithm { ES256, Other(i64) }
+        pub mod iana { #[derive(Clone, Copy, PartialEq, Eq)] pub enum Algorithm { ES256, Other(i64) }
         #[allow(non_camel_case_types)] #[derive(Clone, Copy)] pub enum EllipticCurve { P_256, Other(i64) } }
     pub mod cbor { pub mod value { use vstd::prelude::*;
         #[verifier::external_body] pub struct ValueOpaque { _p: u8 }
@@ -723,14 +723,17 @@ impl vstd::std_specs::convert::FromSpecImpl<Bytes> for String {
     uninterp spec fn from_spec(b: Bytes) -> String;
 }
 impl From<Bytes> for String { #[verifier::external_body] fn from(b: Bytes) -> (r: String) ensures r@ == spec_app_id(b@) { unimplemented!() } }
-impl passkey_types::Passkey {
-    // passkey.rs `wrap_u2f_registration_request` (trusted signature): the stored credential is for that application and key handle
-    // and keeps the private COSE key it is given
-    #[verifier::external_body]
-    pub fn wrap_u2f_registration_request(request: &u2f_types::RegisterRequest, response: &u2f_types::RegisterResponse, key_handle: &[u8], private_key: &CoseKey)
-        -> (r: (passkey_types::Passkey, passkey_types::ctap2::make_credential::PublicKeyCredentialUserEntity, passkey_types::ctap2::make_credential::PublicKeyCredentialRpEntity))
-        ensures r.0.key == *private_key, r.0.credential_id@ == key_handle@, r.0.rp_id@ == spec_app_id(request.application@), r.2.id@ == spec_app_id(request.application@)
-    { unimplemented!() }
+// passkey.rs: the real `from_u2f_register_response` / `wrap_u2f_registration_request` (the credential a U2F registration stores is for
+// that application -- under the same `String::from(Bytes)` text the authentication looks it up with -- and that key handle, and keeps
+// the private COSE key it is given)
+impl Default for passkey_types::CredentialExtensions { #[verifier::external_body] fn default() -> (r: Self) { unimplemented!() } }
+pub mod vx_pk_u2f {
+    use super::*;
+    use super::passkey_types::{Passkey, Bytes};
+    use super::u2f_types::{RegisterRequest, RegisterResponse};
+    pub mod ctap2 { pub use crate::passkey_types::ctap2::make_credential::{PublicKeyCredentialUserEntity, PublicKeyCredentialRpEntity}; }
+    //@ extract pk impl Passkey
+    //@   only from_u2f_register_response wrap_u2f_registration_request
 }
 // ecdsa::Signature::to_vec / to_bytes: the fixed-width r || s serialisation, not DER
 impl p256::ecdsa::Signature { #[verifier::external_body] pub fn to_vec(&self) -> (r: Vec<u8>) ensures r@ == self.fixed@ { unimplemented!() } }
